@@ -727,7 +727,7 @@ def replay(ctx, rp):
 
 MANIFEST = {
     "text": "Lean theorems about an executable model of solve_cnf for every CNF, fuel and set-iteration order (sat_sound, unsat_sound, "
-            "trace_valid, proofs_valid, verdict_correct), a verified certificate checker (checkTrace_sound, checkProofs_sound) that is run on every "
+            "trace_valid, proofs_valid, verdict_correct, no_crash), a verified certificate checker (checkTrace_sound, checkProofs_sound) that is run on every "
             "'unsatisfiable' answer of the real solver, and tseitin_equisat for a model of the Tseitin CNF whose clause groups are the encode_* rules "
             "regenerated from library/sat.json on each run; models tied to prover/sat.py and prover/tseitin.py by differential runs on generated "
             "inputs; verdicts, assignments and traces of the real solver judged by brute force and an independent trace replay. Termination is not "
